@@ -102,7 +102,14 @@ func relOnEdge(p *core.Program, ca *core.CondAtom, truth bool, a, b side) string
 	if ca.Kind != "cmp" {
 		return ""
 	}
-	px, py := p.ProvAt(ca.X, "", ca.If), p.ProvAt(ca.Y, "", ca.If)
+	x, y := ca.X, ca.Y
+	// difference form: (u - v) REL 0  ≡  u REL v ;  0 REL (u - v)  ≡  v REL u
+	if bo, ok := x.(*ssa.BinOp); ok && bo.Op == token.SUB && isZero(y) {
+		x, y = bo.X, bo.Y
+	} else if bo, ok := y.(*ssa.BinOp); ok && bo.Op == token.SUB && isZero(x) {
+		x, y = bo.Y, bo.X
+	}
+	px, py := p.ProvAt(x, "", ca.If), p.ProvAt(y, "", ca.If)
 	op := ca.Op
 	switch {
 	case a(px) && b(py):
@@ -433,4 +440,9 @@ func findOpSite(p *core.Program, h *core.Handler, kind, name string) (*ssa.Funct
 		})
 	}
 	return unit, site
+}
+
+func isZero(v ssa.Value) bool {
+	c, ok := v.(*ssa.Const)
+	return ok && c.Value != nil && c.Value.ExactString() == "0"
 }
